@@ -143,3 +143,47 @@ Theorem C13_capitalised_function_refuted : exists a b,
   call_shape false a 0 <> call_shape false b 0.
 Proof. exists (str "zqn"), (str "Zqn"). vm_compute. repeat split; discriminate. Qed.
 Print Assumptions C13_capitalised_function_refuted.
+
+(* ------------------------------------------------------------------------------------------------
+   After the `fix:` commits (item names, members, parameters/locals, imports, type paths): the
+   generated table has NO unescaped site left, so the safety statement holds at every site of the
+   current source without the keyword class. C13_unescaped_refuted above is universal over the table
+   and is now vacuous by itself; if an unescaped site comes back, C13_all_sites_safe breaks. *)
+Theorem C13_all_sites_safe : forall s n, In s SITES ->
+  legal_incan_ident n = true -> Known_C13_not_rawable n = false ->
+  valid_rust_ident (emit_ident s n) = true /\
+  (forall b, legal_incan_ident b = true -> emit_ident s n = emit_ident s b -> n = b).
+Proof. exact every_site_safe. Qed.
+Print Assumptions C13_all_sites_safe.
+
+(* regression witnesses, one per repaired finding: the former witness keyword at every site serving
+   the finding's binding positions (at least one such site exists) *)
+Theorem C13_fixed_item_names :
+  regression_ok ["function-name"; "const-name"; "type-alias-name"; "enum-name"; "trait-name";
+                 "trait-name-in-impl"; "impl-target-type"] (str "loop") = true.
+Proof. vm_compute; reflexivity. Qed.
+Print Assumptions C13_fixed_item_names.
+
+Theorem C13_fixed_members :
+  regression_ok ["field-name"; "field-init"; "field-access"; "field-assign"; "field-name-in-derived-impl";
+                 "method-name"; "method-call"; "associated-function-call"; "trait-method-name";
+                 "enum-variant"; "enum-variant-field"; "enum-variant-or-assoc-in-path";
+                 "struct-pattern-field"] (str "struct") = true.
+Proof. vm_compute; reflexivity. Qed.
+Print Assumptions C13_fixed_members.
+
+Theorem C13_fixed_parameters_and_locals :
+  regression_ok ["method-parameter"; "trait-method-parameter"; "comprehension-variable"] (str "ref") = true.
+Proof. vm_compute; reflexivity. Qed.
+Print Assumptions C13_fixed_parameters_and_locals.
+
+Theorem C13_fixed_imports :
+  regression_ok ["import-alias"; "from-import-alias"; "imported-item-name"; "import-path-segment"] (str "use") = true.
+Proof. vm_compute; reflexivity. Qed.
+Print Assumptions C13_fixed_imports.
+
+Theorem C13_fixed_type_paths :
+  regression_ok ["type-name-in-path"; "generic-type-parameter"; "struct-pattern-type";
+                 "enum-pattern-path-segment"; "derive-name"] (str "dyn") = true.
+Proof. vm_compute; reflexivity. Qed.
+Print Assumptions C13_fixed_type_paths.
